@@ -16,7 +16,10 @@ NOT_YET = {}
 
 PROPS = {
     "C16": {
-        "suites": [{"name": "srate", "quick": 1500, "thorough": 40000}],
+        "suites": [{"name": "srate", "quick": 1500, "thorough": 40000},
+                   # effect level: delay (+ nested probe / filter / delay), reverb, filter, eq_filter under
+                   # init / on_change_sample_rate / process with dt = 1 / rate in force
+                   {"name": "fxrate", "quick": 1500, "thorough": 20000}],
         "level_text": "Lean theorems about the labelled transition system of the sample-rate protocol (gameplay add-track path: load "
                       "rate + init effects, enqueue; audio side: rate change over arena contents, pickup) for ALL interleavings: a "
                       "change reaches every track the audio thread owns; the full claim is refuted for the current code by an "
